@@ -319,3 +319,27 @@ PROPS["C13"] = {
         {"test": "^TestCallerBuffersNotRetained$", "checks": 60, "shards": 6, "race": True, "timeout": 1800},
     ],
 }
+
+PROPS["C02"] = {
+    "pkg": "c02",
+    "technique": "structure-aware property-based testing (rapid) plus native coverage-guided fuzzing of the incoming RTP/RTCP paths, with a crash journal for panics in background goroutines",
+    "level_text": "Every interceptor on its own and an all-interceptor chain receive, after a well-formed history, generated hostile input: incoming RTP and RTCP byte strings built from valid "
+                  "packets whose fields are made inconsistent (TWCC run lengths vs status count, missing deltas, RFC 8888 wrapped/zero-length blocks, lying lengths, truncations, bit flips) and outgoing "
+                  "packets with payload up to 65535; oracle: no panic anywhere in the process, every call returns within the watchdog, Read never reports more bytes than it was given, and well-formed "
+                  "probe traffic still passes afterwards. Thorough adds native go fuzzing of both byte paths from a seeded and from an empty corpus. Exploration.",
+    "level_note": "trusts: recover() for the calling goroutine and process death + journal for background goroutines; 'never loops' is decided as 'returns within 20 s'; native fuzzing cannot be pinned "
+                  "to a seed, its reproducible unit is the saved crasher",
+    "assumptions": ["the chain variant leaves out the pacing/leaky-bucket/jitter-buffer members (they are exercised alone) so that probe delivery stays synchronous"],
+    "quick": [
+        {"test": "^(TestRegress|TestKnown)", "timeout": 200},
+        {"test": "^TestHostileInputs$", "checks": 700, "shards": 6, "timeout": 600},
+    ],
+    "thorough": [
+        {"test": "^(TestRegress|TestKnown)", "timeout": 200},
+        {"test": "^TestHostileInputs$", "checks": 8000, "shards": 8, "timeout": 1800},
+        {"fuzz": "FuzzIncomingRTP", "fuzztime": "90s", "workers": 2, "timeout": 400},
+        {"fuzz": "FuzzIncomingRTCP", "fuzztime": "90s", "workers": 2, "timeout": 400},
+        {"fuzz": "FuzzIncomingRTP", "fuzztime": "90s", "workers": 2, "empty_corpus": True, "timeout": 400},
+        {"fuzz": "FuzzIncomingRTCP", "fuzztime": "90s", "workers": 2, "empty_corpus": True, "timeout": 400},
+    ],
+}
